@@ -430,10 +430,17 @@ fn gen_delegation_method<'s>(
     // in the invoking scope would be matched instead of bound. The names of the forwarding method
     // are the macro's own (they need not be those of the declaration).
     for (index, arg) in fn_sig.inputs.iter_mut().enumerate() {
-        if let syn::FnArg::Typed(pat_type) = arg {
-            if let syn::Pat::Ident(pat_ident) = pat_type.pat.as_mut() {
-                pat_ident.ident = syn::Ident::new(&format!("__entrait_arg{index}"), pat_ident.ident.span());
+        match arg {
+            syn::FnArg::Typed(pat_type) => {
+                if let syn::Pat::Ident(pat_ident) = pat_type.pat.as_mut() {
+                    pat_ident.ident = syn::Ident::new(&format!("__entrait_arg{index}"), pat_ident.ident.span());
+                }
             }
+            // `mut self` is for the default body to use: the forwarding method only moves it on
+            syn::FnArg::Receiver(receiver) if receiver.reference.is_none() => {
+                receiver.mutability = None;
+            }
+            syn::FnArg::Receiver(_) => {}
         }
     }
     let fn_ident = &trait_fn.sig().ident;
